@@ -238,6 +238,22 @@ func (c *checkCtx) coqObligations() {
 		c.cov.Extra = map[string]any{}
 	}
 	c.cov.Extra["theorems"] = names
+	if c.thorough() {
+		// the independent checker re-checks this property's file and everything it depends on, and lists the axioms
+		ck := run(coqDir, 60*time.Minute, nil, "coqchk", "-silent", "-o", "-Q", "theories", "Lox", "Lox.Properties."+c.id)
+		ckOut := string(ck.Out) + string(ck.Err)
+		ok := ck.Code == 0 && strings.Contains(ckOut, "Axioms: <none>") &&
+			strings.Contains(ckOut, "type-in-type: <none>") && strings.Contains(ckOut, "unsafe (co)fixpoints: <none>") &&
+			strings.Contains(ckOut, "positivity is assumed: <none>")
+		c.cov.Extra["coqchk"] = lastLines(ckOut, 12)
+		if ok {
+			c.cov.TrustedBase = append(c.cov.TrustedBase, "coqchk -o on Lox.Properties."+c.id+" and its dependencies: Axioms <none>, no type-in-type, no unsafe fixpoints, no assumed positivity")
+		} else {
+			c.addFinding(finding{Signature: "coqchk-failed",
+				Desc:    "coqchk does not accept Properties/" + c.id + " and its dependencies without axioms: " + lastLines(ckOut, 12),
+				NoInput: true, Theorem: "coqchk -o Lox.Properties." + c.id, Replay: map[string]any{"cmd": "coqchk -silent -o -Q theories Lox Lox.Properties." + c.id}})
+		}
+	}
 }
 
 func lastLines(s string, n int) string {
